@@ -689,7 +689,7 @@ class Engine:
         # ---- M ----
         runs = [(3, "TRUE", "TRUE")] + ([(4, "TRUE", "FALSE"), (4, "FALSE", "TRUE")] if thorough else [])
         for n, mach, loops in runs:
-            res = ctx.tlc("Dom_MC", MC_CFG % (n, mach, loops), label="laws+machines N=%d selfloops=%s" % (n, loops),
+            res = ctx.tlc("Dom_MC", MC_CFG % (n, mach, loops), label="%s N=%d selfloops=%s" % ("laws+machines" if mach == "TRUE" else "laws only", n, loops),
                           workers=WORKERS, heap="4g")
             for e in res.errors:
                 raise tlcmod.MachineryError("Dom_MC: the specification violates its own law %s: %s" % (e.name, e.text[:1500]))
